@@ -315,6 +315,26 @@ func dispatch(l []byte, gc genericCase) childRes {
 		}
 		return childRes{N: row.N, Status: rr.status, Key: rr.key, Detail: rr.detail, Class: garbageClass(&row), Obs: rr.obs}
 	}
+	if gc.Prop == "C20" {
+		var c ACase
+		if err := json.Unmarshal(l, &c); err != nil {
+			return childRes{N: gc.N, Status: "inconclusive", Detail: "bad case: " + err.Error()}
+		}
+		var rr runResult
+		for try := 0; try < 2; try++ {
+			if rr = runAlias(&c); rr.status != "inconclusive" {
+				break
+			}
+		}
+		cl := "C20"
+		for _, b := range c.Channels {
+			cl += fmt.Sprintf("/%s-%s-", b.Side, b.Mode)
+			for _, pm := range b.Plan {
+				cl += fmt.Sprint(pm.N)
+			}
+		}
+		return childRes{N: c.N, Status: rr.status, Key: rr.key, Detail: rr.detail, Class: cl, Obs: rr.obs}
+	}
 	if gc.Prop == "C17" {
 		var c ECase
 		if err := json.Unmarshal(l, &c); err != nil {
@@ -373,7 +393,7 @@ func runBeh(b *Beh) childRes {
 		default:
 			var dmg func(g *rig) func([]byte, Step) [][]byte
 			for _, st := range b.Steps {
-				if st.In == "damage" {
+				if st.In == "damage" || st.In == "inject" {
 					dmg = func(g *rig) func([]byte, Step) [][]byte { return damager(g, b) }
 				}
 			}
@@ -383,5 +403,5 @@ func runBeh(b *Beh) childRes {
 			break
 		}
 	}
-	return childRes{N: b.N, Status: rr.status, Key: rr.key, Detail: rr.detail, Class: behClass(b), Obs: rr.obs}
+	return childRes{N: b.N, Status: rr.status, Key: rr.key, Detail: rr.detail, Class: behClass(b), Obs: rr.obs, Trace: rr.trace}
 }
